@@ -38,7 +38,9 @@ import (
 const ChainID = "verif-chain"
 
 func init() {
-	glog.SetLog(zap.NewNop())
+	if os.Getenv("VERIF_LOG") == "" {
+		glog.SetLog(zap.NewNop())
+	}
 }
 
 // ------------------------------------------------------------------ disk
@@ -169,6 +171,7 @@ type Node struct {
 	lastStore int64
 	startErr  error
 	emitSeq   int
+	inputs    int
 }
 
 func (n *Node) onWrite(site string) {
@@ -208,6 +211,8 @@ type Net struct {
 	quiesce  int
 	stateHashes []uint64
 	claimed     map[string]bool
+	Ref         *RefDigests // C07: digests of the uncrashed reference run
+	pnames      map[string]string
 }
 
 type altBlock struct {
@@ -316,6 +321,7 @@ func (nt *Net) startNode(n *Node) bool {
 	n.armed = true
 	n.alive = true
 	n.writes = 0
+	nt.checkReloadedProposer(n, st)
 	st.SetBlockExecutable(executor{})
 	store := bc.NewBlockStore(n.dbs["blockstore"], n.dbs["archive"])
 	n.ticker = pbft.NewVerifTicker()
@@ -377,8 +383,13 @@ func (nt *Net) startNode(n *Node) bool {
 		p.Data.Set(types.PeerStateKey, pbft.NewPeerState(p))
 		n.peers[o.Idx] = p
 	}
-	n.lastStore = store.Height()
+	if n.restarts == 0 {
+		n.lastStore = store.Height()
+	} else {
+		nt.Mon.checkStore(n) // blocks that reached the store before the crash are audited now
+	}
 	nt.collect(n)
+	nt.Mon.noteStart(n)
 	return true
 }
 
@@ -427,6 +438,7 @@ func (nt *Net) StopAll() {
 			case <-time.After(2 * time.Second):
 			}
 			if g := cs.VerifWALGroup(); g != nil {
+				g.Stop() // idempotent; makes sure the group's size-check ticker is dead before the directory goes away
 				g.Head.Close()
 			}
 			n.evsw.Stop()
@@ -576,11 +588,23 @@ func (nt *Net) step(n *Node, kind inputKind, d *delivery, toIdx int) {
 		desc = fmt.Sprintf("n%d<-timeout h%d r%d %v", n.Idx, to.Height, to.Round, to.Step)
 	}
 	nt.Trace = append(nt.Trace, desc)
+	hBefore := n.cs.VerifRoundState().Height
 	n.gate.Go <- struct{}{}
 	select {
 	case <-n.gate.Idle:
 		nt.collect(n)
 		nt.Mon.afterStep(n)
+		nt.Mon.recordDigest(n, hBefore)
+		n.inputs++
+		for i, r := range nt.Sc.Rules {
+			if r.Kind == "rotate" && r.Node == n.Idx && r.K == n.inputs && n.restarts == 0 {
+				if g := n.cs.VerifWALGroup(); g != nil {
+					g.RotateFile()
+					nt.fired[i]++
+					nt.Trace = append(nt.Trace, fmt.Sprintf("n%d WAL rotated after input %d", n.Idx, n.inputs))
+				}
+			}
+		}
 		if nt.Sc.Mode != "nohash" {
 			nt.stateHashes = append(nt.stateHashes, nt.globalDigest())
 		}
@@ -636,6 +660,7 @@ func (nt *Net) Run() *Result {
 		nt.armCrash(n)
 		if !nt.startNode(n) {
 			nt.Mon.onCrash(n)
+			nt.discard(n)
 		}
 	}
 	maxSteps := sc.MaxSteps
@@ -850,12 +875,28 @@ func (nt *Net) maj23Sweep() bool {
 		}
 		nt.claimed[key] = true
 		seen := map[int]bool{}
+		relay := -1
+		for _, o := range nt.Nodes {
+			if o.Idx != k.Idx && !o.Byz && o.alive {
+				relay = o.Idx
+				break
+			}
+		}
 		for _, e := range nt.Ledger {
-			if e.Kind == "part" && e.Height == krs.Height && e.Parts.Equals(hdr) && e.From != k.Idx {
+			if e.Kind == "part" && e.Height == krs.Height && e.Parts.Equals(hdr) {
 				idx := e.Msg.(*pbft.BlockPartMessage).Part.Index
 				if idx >= 0 && !seen[idx] {
+					ee := e
+					if e.From == k.Idx {
+						if relay < 0 {
+							continue
+						}
+						c := *e
+						c.From = relay // a peer that has the block serves it back to its restarted proposer
+						ee = &c
+					}
 					seen[idx] = true
-					k.pending = append(k.pending, &delivery{e: e})
+					k.pending = append(k.pending, &delivery{e: ee})
 					did = true
 				}
 			}
@@ -894,4 +935,32 @@ func (nt *Net) maj23Sweep() bool {
 		}
 	}
 	return did
+}
+
+// refValidators is the monitor's own replica of the validator set in force at
+// height h: genesis set, accumulators advanced once per committed block.
+func (nt *Net) refValidators(h int64) *types.ValidatorSet {
+	vs := types.NewValidatorSet(cloneVals(nt.Vals))
+	for k := int64(1); k < h; k++ {
+		vs.IncrementAccum(1)
+	}
+	return vs
+}
+
+// checkReloadedProposer: a state loaded from disk must name the same proposer
+// for round 0 of its next height as every replica that did not restart.  If it
+// does not, that is reported (property C07/C16) and the harness then puts the
+// right proposer back so that the rest of the execution can still be judged.
+func (nt *Net) checkReloadedProposer(n *Node, st *sm.State) {
+	h := st.LastBlockHeight + 1
+	want := nt.refValidators(h).Proposer()
+	got := st.Validators.Proposer()
+	if want == nil || got == nil || bytes.Equal(want.Address, got.Address) {
+		return
+	}
+	if !n.Byz {
+		nt.Mon.report("C07", map[string]string{"kind": "proposer-differs-after-reload", "site": "ValidatorSet.Proposer"},
+			fmt.Sprintf("node %d reloaded its state for height %d and computes validator %X as round-0 proposer; replicas that did not restart have %X (the cached proposer is not persisted and cannot be recomputed from the decremented accumulators)", n.Idx, h, got.Address[:4], want.Address[:4]))
+	}
+	st.Validators.VerifSetProposer(want.Address)
 }
